@@ -252,6 +252,7 @@ def verify(rep, prop, fn, spec, timeout=60000, B=2, backend='z3-qf(typed-instant
                 # set membership facts quantify over VALUES, which the bounded refuter only expands over a small domain: its model is not a counterexample
                 o.status = core.UNKNOWN; o.detail = 'not proved; the bounded-scope model is not trusted (hypotheses quantify over set members) and no failing input was found natively'; o.replay = None
         out.append(o); rep.add(o)
+    core.oracle_selfcheck(rep, fn, fallback, all(o.status == core.PROVED for o in out))
     return out
 
 def kinds_by_target(node, kinds):
